@@ -114,6 +114,10 @@ class Gen:
             return 0
         if f == "ones":
             return (1 << bits) - 1
+        if f == "sync":     # the UBX sync characters inside the payload
+            self._syncn = getattr(self, "_syncn", 0) + 1
+            pat = (b"\xb5\x62" * nbytes)[:nbytes] if nbytes > 1 else (b"\xb5" if self._syncn % 2 else b"\x62")
+            return int.from_bytes(pat, "little")
         if f == "edge":
             return self.rng.choice([0, 1, (1 << (bits - 1)) - 1, 1 << (bits - 1), (1 << bits) - 1, (1 << bits) - 2])
         return self.rng.getrandbits(bits)
